@@ -65,6 +65,8 @@ def programs(tier: str):
             for place in PLACES:
                 for mode in (["full"], ["break", 1], ["aclose", 1]):
                     yield {"k": 2, "end": "normal", "feature": "plain", "created": created, "place": place, "mode": mode, "source_form": form}
+                    if created == "in-scope":
+                        yield {"k": 2, "end": "normal", "feature": "record", "created": created, "place": place, "mode": mode, "source_form": form}
     # LONG streams: 5..17 (33) items, plain / recording / nested-scope generators, every place;
     # full consumption, break / aclose / cancel at the first, a middle and the last item
     for k in (5, 6, 7, 9, 17, 100, 128) if tier == "quick" else (5, 6, 7, 8, 9, 12, 17, 33, 100, 128, 257):
@@ -640,6 +642,12 @@ def execute(program, ch: Chooser) -> Result:  # noqa: C901, PLR0912, PLR0915
             rb = records_box["creator"]
             if rb["own"] is not None or 99 not in rb["merged"]:
                 viols.append(viol("b-creation-context", f"cleanup-record-outside-stream-scope/{mode[0]}", {"own": None, "merged": [99]}, rb))
+        # whatever the generator records belongs to the stream's scope under the CREATING scope: a
+        # consuming scope elsewhere never sees it in its merged view
+        if feature in ("record", "record-cleanup") and place == "other-scope" and "consumer" in records_box and records_box["consumer"]["merged"]:
+            viols.append(viol("c-consumer-intact-metrics", f"generator-records-merged-into-consumer/{mode[0]}/{placement}", {"merged": []}, records_box["consumer"], source=program.get("source_form", "function")))
+        if feature == "record" and created == "in-scope" and place != "same" and mode[0] == "full" and k > 0 and "creator" in records_box and not records_box["creator"]["merged"]:
+            viols.append(viol("b-creation-context", f"generator-records-missing-from-creating-scope/{placement}", "the creating scope's merged view holds the stream's records", records_box["creator"], source=program.get("source_form", "function")))
         # (e) nothing reaches the loop's exception handler
         if exc_log:
             viols.append(viol("e-loop-clean", f"{mode[0]}/{placement}", "empty", exc_log[:2]))
